@@ -161,7 +161,7 @@ func corrupt(c *fw.Ctx, cur, prev []byte) (out []byte, kind, detail string) {
 			if len(apps) == 0 {
 				continue
 			}
-			n := apps[c.S.Draw(len(apps), "path")]
+			n := mut.PickNode(c.S, apps)
 			t2, res, ok := mut.Apply(c.S, mut.Clone(tree), n, op, nil)
 			if !ok {
 				continue
